@@ -394,7 +394,9 @@ def damage(body, how, a, b):
         i = a % (n + 1)
         junk = [b'\xff', b'\xc3', b'\xe2\x82', b'\xed\xa0\x80', b'\x00',
                 b'\xf8\x88\x80\x80\x80', b'<', b'&', b'&#0;', b'&#xD800;',
-                b'\x0b', b']]>', b'<![CDATA[', b'<!--', b'<?pi ?>'][b % 15]
+                b'\x0b', b']]>', b'<![CDATA[', b'<!--', b'<?pi ?>',
+                b'\x00\x00', b'\x01\x02\x03', b'\xef\xbf\xbe\xef\xbf\xbf',
+                b'\x0b\x0c<', b'\x1f\x1f&'][b % 20]
         return body[:i] + junk + body[i:]
     if how == 3:
         return body.decode('utf-8', 'replace').encode('utf-16')
